@@ -473,7 +473,7 @@ func genTiny(rng *lab.Rand, name string) refFrame {
 // ---------------------------------------------------------------------------------------------------------------
 
 func c07Match(c *lab.Ctx) {
-	c.Rule("every prefix of generated valid streams (5 xprotocol codecs, HTTP/1 requests, HTTP/2 preface+frames) through the real auto-detection (SelectStreamFactoryProtocol over all registered protocols, repeated to expose map-order dependence): answers must be Again* then Success(p) for every longer prefix; distinct = (protocol, prefix length class, answer)")
+	c.Rule("every prefix of generated valid streams (5 xprotocol codecs, HTTP/1 requests, HTTP/2 preface+frames) through the real detection (SelectStreamFactoryProtocol over all registered protocols, repeated to expose map-order dependence, and over explicit protocol lists holding the stream's protocol at every position among 1-3 others): answers must be Again* then Success(p) for every longer prefix; distinct = (protocol, prefix length class, answer)")
 	registerCodecs()
 	rng := c.Rand("match")
 	type st struct {
@@ -522,39 +522,73 @@ func c07Match(c *lab.Ctx) {
 		if limit < len(s.b) {
 			probes = append(probes, len(s.b)) // the complete stream is always presented
 		}
-		for _, n := range probes {
-			for rep := 0; rep < 3; rep++ {
-				p, err := stream.SelectStreamFactoryProtocol(ctx, "", s.b[:n], nil)
-				c.Eval(1)
-				ans := "Success:" + string(p)
-				if err == stream.EAGAIN {
-					ans = "Again"
-				} else if err != nil {
-					ans = "Failed"
-				}
-				c.Distinct(fmt.Sprintf("%s|%s|%s", s.proto, lenClass(n), ans))
-				w := map[string]interface{}{"case": si, "proto": s.proto, "prefix_len": n, "answer": ans, "prefix_hex": fmt.Sprintf("%x", s.b[:n])}
-				switch {
-				case ans == "Failed":
-					c.Violation("never-failed-on-prefix-of-valid-stream", "C07/match/failed-on-valid-prefix/"+s.proto,
-						fmt.Sprintf("protocol detection answered FAILED on the %d-byte prefix of a valid %s stream", n, s.proto), w)
-				case ans == "Again":
-					if decided != "" {
-						c.Violation("answer-stable-once-decided", "C07/match/again-after-success/"+s.proto,
-							fmt.Sprintf("detection answered %s on a shorter prefix but Again on %d bytes of a %s stream", decided, n, s.proto), w)
-					}
-				default:
-					if !protoSame(string(p), s.proto) {
-						c.Violation("detects-the-streams-protocol", "C07/match/wrong-protocol/"+s.proto,
-							fmt.Sprintf("a valid %s stream was detected as %s on its %d-byte prefix", s.proto, p, n), w)
-					}
-					decided = ans
+		// detection scopes: nil = all registered protocols (auto), plus explicit lists (a proxy's "downstream_protocol": "A,B,C")
+		// that contain the stream's protocol at every position among other protocols
+		all := []api.ProtocolName{"Http1", "Http2", "bolt", "boltv2", "dubbo", "dubbo-thrift", "tars"}
+		scopeSets := [][]api.ProtocolName{nil, {api.ProtocolName(s.proto)}}
+		for k := 0; k < 4; k++ {
+			var others []api.ProtocolName
+			for _, i := range rng.Perm(len(all)) {
+				if string(all[i]) != s.proto && len(others) < 1+k%3 {
+					others = append(others, all[i])
 				}
 			}
+			pos := rng.Intn(len(others) + 1)
+			l := append([]api.ProtocolName{}, others[:pos]...)
+			l = append(l, api.ProtocolName(s.proto))
+			l = append(l, others[pos:]...)
+			scopeSets = append(scopeSets, l)
 		}
-		if decided == "" {
-			c.Violation("decides-on-complete-stream", "C07/match/undecided-on-complete-frame/"+s.proto,
-				fmt.Sprintf("detection never decided although a complete %s frame (%d bytes) was presented", s.proto, len(s.b)), map[string]interface{}{"case": si})
+		for _, scopes := range scopeSets {
+			decided = ""
+			scopeTag := "auto"
+			if scopes != nil {
+				scopeTag = fmt.Sprintf("scoped%d@%d", len(scopes), func() int {
+					for i, x := range scopes {
+						if string(x) == s.proto {
+							return i
+						}
+					}
+					return -1
+				}())
+			}
+			for _, n := range probes {
+				for rep := 0; rep < 3; rep++ {
+					if scopes != nil && rep > 0 {
+						break // an explicit list is walked in order: nothing varies between repetitions
+					}
+					p, err := stream.SelectStreamFactoryProtocol(ctx, "", s.b[:n], scopes)
+					c.Eval(1)
+					ans := "Success:" + string(p)
+					if err == stream.EAGAIN {
+						ans = "Again"
+					} else if err != nil {
+						ans = "Failed"
+					}
+					c.Distinct(fmt.Sprintf("%s|%s|%s|%s", s.proto, scopeTag, lenClass(n), ans))
+					w := map[string]interface{}{"case": si, "proto": s.proto, "prefix_len": n, "answer": ans, "prefix_hex": fmt.Sprintf("%x", s.b[:n]), "scopes": scopes}
+					switch {
+					case ans == "Failed":
+						c.Violation("never-failed-on-prefix-of-valid-stream", "C07/match/failed-on-valid-prefix/"+s.proto,
+							fmt.Sprintf("protocol detection answered FAILED on the %d-byte prefix of a valid %s stream", n, s.proto), w)
+					case ans == "Again":
+						if decided != "" {
+							c.Violation("answer-stable-once-decided", "C07/match/again-after-success/"+s.proto,
+								fmt.Sprintf("detection answered %s on a shorter prefix but Again on %d bytes of a %s stream", decided, n, s.proto), w)
+						}
+					default:
+						if !protoSame(string(p), s.proto) {
+							c.Violation("detects-the-streams-protocol", "C07/match/wrong-protocol/"+s.proto,
+								fmt.Sprintf("a valid %s stream was detected as %s on its %d-byte prefix", s.proto, p, n), w)
+						}
+						decided = ans
+					}
+				}
+			}
+			if decided == "" {
+				c.Violation("decides-on-complete-stream", "C07/match/undecided-on-complete-frame/"+s.proto,
+					fmt.Sprintf("detection (scopes %v) never decided although a complete %s frame (%d bytes) was presented", scopes, s.proto, len(s.b)), map[string]interface{}{"case": si, "scopes": scopes})
+			}
 		}
 		if si%200 == 0 {
 			c.Sample(map[string]interface{}{"proto": s.proto, "stream_len": len(s.b), "prefixes_tried": limit + 1})
